@@ -235,6 +235,12 @@ fn shuttle_me_or_none() -> usize {
     }
 }
 
+/// experiment switch: VERIF_PARK=1 turns `park_preempted` on for every unit
+fn park_env() -> bool {
+    static P: std::sync::OnceLock<bool> = std::sync::OnceLock::new();
+    *P.get_or_init(|| std::env::var("VERIF_PARK").is_ok_and(|v| v == "1"))
+}
+
 /// true for the panics the engine itself raises to abandon an execution: a harness that catches panics of the code
 /// under test re-throws these
 pub fn is_engine_panic(payload: &(dyn std::any::Any + Send)) -> bool {
@@ -486,7 +492,7 @@ impl Exec {
                     0
                 };
                 let who = alts[c];
-                if self.cfg.park_preempted && c != 0 && cur == Some(alts[0]) && !contended && !yielded && !self.in_spawn {
+                if (self.cfg.park_preempted || park_env()) && c != 0 && cur == Some(alts[0]) && !contended && !yielded && !self.in_spawn {
                     self.parked.push(alts[0]);
                 }
                 if idx < self.prefix.len() && self.prefix[idx].who != who as u32 && self.prefix[idx].who != u32::MAX - 1 {
